@@ -324,10 +324,10 @@ def owner_closure(e, cls_qname: str, owners):
     extracted from an owner is part of it."""
     import ast as _ast
     from ..model import walk_own
-    c = e.p.classes.get(cls_qname)
     out = set(owners)
-    if c is None:
+    if e.p.classes.get(cls_qname) is None:
         return out
+    c = merged_class(e, cls_qname)
     refs = {}
     for mname, m in c.methods.items():
         for x in walk_own(m.node):
